@@ -11,7 +11,7 @@
 (*                                    mig[k] ignored; beta only in 1-D)    *)
 (* All grid / flat-array helpers come from SpectrumOps.                    *)
 (***************************************************************************)
-EXTENDS SpectrumOps
+EXTENDS SpectrumOps, TLC
 
 BetaFac(beta) == RDiv(RSq(RAdd(beta, "1")), RMul("4", beta))
 Vf(x, p)      == RMul(RDiv(RMul(x, RSub("1", x)), p.nu), BetaFac(p.beta))
@@ -120,6 +120,49 @@ Others(grids, ix)    == [j \in 1..Len(ix) |-> grids[j][ix[j] + 1]]
 AllOthers(grids, k, ix, v) == \A j \in 1..Len(ix) : j = k \/ grids[j][ix[j] + 1] = v
 SysOf(grids, k, ix, p) ==
     LineABC(grids[k], k, Others(grids, ix), p, HalfDelj(grids[k]), AllOthers(grids, k, ix, "0"), AllOthers(grids, k, ix, "1"))
+\* the same with Chang-Cooper weights delj (a sequence over the intervals of the line)
+SysOfD(grids, k, ix, p, delj) ==
+    LineABC(grids[k], k, Others(grids, ix), p, delj, AllOthers(grids, k, ix, "0"), AllOthers(grids, k, ix, "1"))
+\* Conditioning allowance of the documented double-precision Chang-Cooper formula
+\*   delj = (-e w + e V - V)/(w - e w),  e = exp(w/V):
+\* it subtracts nearly equal numbers for small z = w/V, relative error about 8u/z^2 (u = 2^-53).
+\* DeljCoefSlack(v) bounds the induced error of the coefficients of row v; multiplied by the
+\* neighbouring |y| it bounds the induced residual.
+UDouble == RDiv("1", RPow("2", 53))
+DeljErr(z) == IF RIsZero(z) THEN "0" ELSE RMin("1", RDiv(RMul("16", UDouble), RSq(z)))
+\* In addition the midpoint x_I = (x_j + x_j+1)/2 is rounded to a double, so 1 - x_I (or x_I) and with it V(x_I) and
+\* z carry a relative error of about 4u / min(x_I, 1 - x_I) on grids that crowd the boundary; the weight responds
+\* with |z * d(delj)/dz| <= min(|z|/12, 1/|z|).
+DeljMidErr(z, xm) == IF RIsZero(z) THEN "0"
+                     ELSE RMul(RMin(RDiv(RAbs(z), "12"), RDiv("1", RAbs(z))), RDiv(RMul("4", UDouble), RMin(xm, RSub("1", xm))))
+DeljIntervalErr(grids, k, ix, p, j) ==
+    LET g == grids[k] xI == XInt(g) dx == Dx(g)
+        m == Mf(xI[j], k, Others(grids, ix), p)
+        z == RDiv(RMul(RMul("2", m), dx[j]), Vf(xI[j], p))
+    IN  RMul(RAbs(m), RAdd(DeljErr(z), DeljMidErr(z, xI[j])))
+DeljCoefSlack(grids, k, ix, p, v) ==
+    LET g == grids[k] N == Len(g) df == DFactor(g) IN
+    RMul(df[v], RAdd(IF v > 1 THEN DeljIntervalErr(grids, k, ix, p, v - 1) ELSE "0",
+                     IF v < N THEN DeljIntervalErr(grids, k, ix, p, v) ELSE "0"))
+DeljResidualSlack(grids, k, ix, p, y, v) ==
+    LET g == grids[k] N == Len(g) df == DFactor(g) IN
+    RMul(df[v], RAdd(IF v > 1 THEN RMul(DeljIntervalErr(grids, k, ix, p, v - 1), RAdd(RAbs(y[v - 1]), RAbs(y[v]))) ELSE "0",
+                     IF v < N THEN RMul(DeljIntervalErr(grids, k, ix, p, v), RAdd(RAbs(y[v]), RAbs(y[v + 1]))) ELSE "0"))
+\* out is the result of one implicit step of ph along axis k with time step dt; deljtab = <<>> when the
+\* Chang-Cooper switch is off, otherwise a record: flat index (as a string) of the line's first point -> weights
+IsStepD(ph, out, grids, k, p, dt, tau, deljtab) ==
+    /\ out.sh = ph.sh
+    /\ \A ix \in LineIxs(ph.sh, k) :
+          LET on  == deljtab # <<>>
+              dj  == IF on THEN deljtab[ToString(Flat(ph.sh, ix) - 1)] ELSE HalfDelj(grids[k])
+              sys == SysOfD(grids, k, ix, p, dj)
+              y == Line(out, k, ix)
+              r == [v \in 1..ph.sh[k] |-> RDiv(Line(ph, k, ix)[v], dt)]
+              invdt == RDiv("1", dt)
+          IN  /\ \A v \in 1..Len(y) : IsNum(y[v])
+              /\ \A v \in 1..Len(y) :
+                    RLeq(RAbs(RSub(r[v], RowApply(sys, invdt, y, v))),
+                         RAdd(RMul(tau, RowScale(sys, invdt, y, r, v)), IF on THEN DeljResidualSlack(grids, k, ix, p, y, v) ELSE "0"))
 \* out is the result of one implicit step of ph along axis k with time step dt
 IsStep(ph, out, grids, k, p, dt, tau) ==
     /\ out.sh = ph.sh
